@@ -225,17 +225,6 @@ theorem excOf_isException (e : Errno) : (excOf e).isException = true := by
   · simp
   · split <;> simp
 
-/-- **`AtomicSaver._rm_part_on_exc`** as regenerated from the source = the model's `rmPart`: never raises, leaves the
-    object alone, and the world is the model's (the unlink is the model's instrumented call; its failure is swallowed) -/
-theorem src_rm_part_on_exc_eq_model (cfg : Cfg) (pf : Option Unit) (plan : Plan) (m : M) :
-    AtomicSaver.rm_part_on_exc (msys plan) (conc cfg pf) (erase m)
-      = (.ok (), conc cfg pf, erase (rmPart cfg plan m)) := by
-  blk_simp [AtomicSaver.rm_part_on_exc, AtomicSaver.rm_part_on_exc.body]
-  simp only [conc, msys_unlink_part, liftU_eq, rmPart]
-  cases cfg.rmPartOnExc
-  · simp
-  · rcases call plan m .unlinkPart with ⟨_ | e, m1⟩ <;> blk_done [liftR, excOf_isException, erase]
-
 /-! ## `set_cloexec`, `replace`, `atomic_rename` -/
 
 /-- one round of evaluation: like `blk_done` but `finishMethod` / `finishFunction` (and whatever post-condition wraps
@@ -447,6 +436,13 @@ theorem src_rm_part_raw (st : AtomicSaver.St Role Unit Unit Unit Unit) (plan : P
     AtomicSaver.rm_part_on_exc (msys plan) st (erase m) = (.ok (), st, erase (rmPartB st.rm_part_on_exc plan m)) := by
   cases hb : st.rm_part_on_exc <;>
   tie_auto [AtomicSaver.rm_part_on_exc, AtomicSaver.rm_part_on_exc.body, rmPartB, rmPart, hb, hp, excOf_isException]
+
+/-- **`AtomicSaver._rm_part_on_exc`** as regenerated from the source = the model's `rmPart`: never raises, leaves the
+    object alone, and the world is the model's (the unlink is the model's instrumented call; its failure is swallowed) -/
+theorem src_rm_part_on_exc_eq_model (cfg : Cfg) (pf : Option Unit) (plan : Plan) (m : M) :
+    AtomicSaver.rm_part_on_exc (msys plan) (conc cfg pf) (erase m)
+      = (.ok (), conc cfg pf, erase (rmPart cfg plan m)) := by
+  rw [src_rm_part_raw (conc cfg pf) plan m rfl, rmPart_eq]
 
 /-- how a translated method relates to the model function it stands for: same exception (as the code sees it) or
     normal return; the world is the model's, up to the ghost counters; the object keeps the attributes of its
